@@ -129,7 +129,30 @@ def project(seq, ctx):
         "ch": chans,
         "rf": refs,
         "lg": [c.name for c in seq._calls[1:]],
+        "bld": bool(seq._building),
+        "tb": [tb_entry(c, ctx) for c in seq._to_build_calls],
+        "pm": seq._param_measurement,
     }
+
+
+TB_OPS = {"target": ("target", 1), "target_index": ("target", 1), "delay": ("delay", 1), "add": ("add", 1),
+          "enable_eom_mode": ("eom_on", "channel"), "disable_eom_mode": ("eom_off", 0),
+          "modify_eom_setpoint": ("eom_mod", "channel"), "add_eom_pulse": ("eom_add", 0),
+          "align": ("align", None), "measure": ("measure", None), "phase_shift": ("pshift", None),
+          "phase_shift_index": ("pshift", None), "config_detuning_map": ("detmap", "dmm"),
+          "config_slm_mask": ("slm", None), "add_dmm_detuning": ("dmm_add", 1)}
+
+
+def tb_entry(call, ctx):
+    op, pos = TB_OPS[call.name]
+    nm = 0
+    if pos == "channel":
+        nm = ctx.nm_of(call.kwargs["channel"])
+    elif pos == "dmm":
+        nm = ctx.cid_of(call.args[1] if len(call.args) > 1 else call.kwargs.get("dmm_id", "dmm_0"))
+    elif pos is not None:
+        nm = ctx.nm_of(call.args[pos])
+    return [op, nm]
 
 
 PHASE_KEYS = ("ph", "ps")
